@@ -82,7 +82,7 @@ UriBool URI_FUNC(EqualsUri)(const URI_TYPE(Uri) * a,
 	}
 
 	/* absolutePath */
-	if ((a->scheme.first == NULL)&& (a->absolutePath != b->absolutePath)) {
+	if (a->absolutePath != b->absolutePath) {
 		return URI_FALSE;
 	}
 
